@@ -532,6 +532,77 @@ fn sub_operands(_tier: Tier) -> Sub {
     )
 }
 
+/// Register operands where a wrongly decoded register number changes the rows: every register the
+/// number could be confused with has its own initial rule and its own current rule.
+fn sub_register_context(_tier: Tier) -> Sub {
+    let regs: [u64; 14] = [0, 1, 2, 62, 63, 64, 65, 127, 128, 129, 16383, 16384, 16385, 65535];
+    let kinds = 14u64;
+    Sub::new(
+        "register-operands-in-context",
+        regs.len() as u64 * kinds * 2,
+        "register r in {0,1,2,62,63,64,65,127,128,129,16383,16384,16385,65535} x instruction {restore (r<64), restore_extended, undefined, same_value, offset (r<64), offset_extended, offset_extended_sf, val_offset, val_offset_sf, register(r,3), register(3,r), expression, val_expression, def_cfa_register} x placed {in the FDE after a row that changed every context register, in the CIE after the context}; context = distinct offset rules in the CIE and distinct register rules in the FDE for {0, 1, r, r-1, r+1, r mod 64, r mod 128, r/2, 64}; .debug_frame v4 and .eh_frame v1, LE/BE",
+        move |ctx, i| {
+            let mut mx = Mix(i);
+            let r = *mx.pick(&regs);
+            let k = mx.take(kinds);
+            let in_cie = mx.flag();
+            use Insn::*;
+            let insn = match k {
+                0 if r < 64 => Restore(r as u8),
+                0 => RestoreExtended(r),
+                1 => RestoreExtended(r),
+                2 => Undefined(r),
+                3 => SameValue(r),
+                4 if r < 64 => Offset(r as u8, 77),
+                4 => OffsetExtended(r, 77),
+                5 => OffsetExtended(r, 78),
+                6 => OffsetExtendedSf(r, -79),
+                7 => ValOffset(r, 80),
+                8 => ValOffsetSf(r, -81),
+                9 => Register(r, 3),
+                10 => Register(3, r),
+                11 => Expression(r, EXPR_B.to_vec()),
+                12 => ValExpression(r, EXPR_C.to_vec()),
+                _ => DefCfaRegister(r),
+            };
+            let mut cregs: Vec<u64> = vec![0, 1, r, r.wrapping_sub(1) & 0xffff, r + 1, r % 64, r % 128, r / 2, 64];
+            cregs.sort();
+            cregs.dedup();
+            let mut cie_p = vec![DefCfa(7, 8)];
+            for (n, &x) in cregs.iter().enumerate() {
+                cie_p.push(OffsetExtended(x, 10 + n as u64));
+            }
+            let mut fde_p = vec![];
+            if in_cie {
+                cie_p.push(insn);
+                fde_p.push(AdvanceLoc(1));
+                fde_p.push(RestoreExtended(r));
+                fde_p.push(AdvanceLoc(1));
+            } else {
+                fde_p.push(AdvanceLoc(1));
+                for (n, &x) in cregs.iter().enumerate() {
+                    fde_p.push(Register(x, 200 + n as u64));
+                }
+                fde_p.push(AdvanceLoc(1));
+                fde_p.push(insn);
+                fde_p.push(AdvanceLoc(1));
+            }
+            for (kind, version, big) in [(Kind::DebugFrame, 4u8, false), (Kind::EhFrame, 1, true)] {
+                let cfg = Cfg { kind, caf: 1, daf: -8, aarch64: false, addr: 8, version, big };
+                let case = Case { cfg, cie_p: &cie_p, fde_p: &fde_p, start: START, len: LEN, store: Store::Heap };
+                if let Some(m) = check_case(ctx, &case) {
+                    account(ctx, &m);
+                    ctx.nontriv(1);
+                    if ctx.want_sample() && crate::glue::sample_here(i, 53) {
+                        let b = build(&cfg, &cie_p, &fde_p, START, LEN);
+                        ctx.sample(format!("{} => {}", case.render(&b.bytes), glue::render_outcome(&m)));
+                    }
+                }
+            }
+        },
+    )
+}
+
 /// Sub 3: all 256 opcode bytes as the only FDE instruction (operand bytes
 /// follow so that known opcodes find well-formed operands).
 fn sub_opcodes(_tier: Tier) -> Sub {
@@ -784,6 +855,7 @@ fn sub_storage(_tier: Tier) -> Sub {
 pub fn def(tier: Tier) -> CheckDef {
     let mut subs = sub_pairs(tier);
     subs.push(sub_operands(tier));
+    subs.push(sub_register_context(tier));
     subs.push(sub_opcodes(tier));
     subs.push(sub_locations(tier));
     subs.push(sub_storage(tier));
